@@ -37,12 +37,12 @@ type poolEntry struct {
 	pristine bool
 	family   int // entries derived from one another share it
 
-	v1   v1Spec
-	v1m  *protosession.SessionToken
-	v2   []v2Level
-	v2m  *protosession.SessionTokenV2
-	b    bSpec
-	bm   *protoacl.BearerToken
+	v1  v1Spec
+	v1m *protosession.SessionToken
+	v2  []v2Level
+	v2m *protosession.SessionTokenV2
+	b   bSpec
+	bm  *protoacl.BearerToken
 }
 
 func (e *poolEntry) bytes() []byte {
